@@ -31,6 +31,7 @@ CONSTANTS Cal, Tod, EntAt, EntRun, EntSt, \* tables
           Limits,     \* naturals used as limit
           Nows,       \* wall clock at query time; later than every entry (clock is monotone)
           WithApi,    \* explore the front-end calls as well
+          WithReader, \* explore other readers of the history between appends and queries
           Pinned,     \* find as in the pinned tree (cursor = before)
           PinnedApi   \* front end as in the pinned tree (after parsed, never passed on)
 
@@ -216,18 +217,28 @@ DoFind(x) == /\ kind' = "find" /\ q' = x /\ res' = FindImpl(journal, x)
 DoApi(x) == /\ kind' = "api" /\ q' = x /\ res' = ApiImpl(journal, x)
             /\ UNCHANGED <<journal, appended>>
 
-Next == /\ kind \in {"init", "append"}
+(* another reader of the history (fe.api.df_model_statistics: the last outcome of a node since
+   boot time; or any caller doing what it likes with the entries a query handed to it - they are
+   the caller's own copies).  Per the property a reader changes NOTHING: not the files, not what
+   later queries return.  One "stats" state per state of the files (the arguments do not matter). *)
+DoReader == /\ kind # "stats"
+            /\ kind' = "stats" /\ q' = NoQ /\ res' = <<>>
+            /\ UNCHANGED <<journal, appended>>
+
+Next == /\ kind \in {"init", "append", "stats"}
         /\ \/ \E e \in Cand : DoAppend(e)
            \/ \E x \in Queries : DoFind(x)
            \/ WithApi /\ \E x \in Queries : DoApi(x)
+           \/ WithReader /\ DoReader
 
 Spec == Init /\ [][Next]_vars
 
 -----------------------------------------------------------------------------
 (* what MC checks *)
-TypeOK == /\ kind \in {"init", "append", "find", "api"}
-          /\ (kind \in {"init", "append"} => DOMAIN journal \subseteq (1..ND) \X Nat)
-C18_Recorded   == kind \in {"init", "append"} => ~Foreign(journal) /\ JBag(journal) = appended
+TypeOK == /\ kind \in {"init", "append", "find", "api", "stats"}
+          /\ (kind \in {"init", "append", "stats"} => DOMAIN journal \subseteq (1..ND) \X Nat)
+C18_Recorded   == kind \in {"init", "append", "stats"} => ~Foreign(journal) /\ JBag(journal) = appended
+C18_ReadOnly   == [][kind' \in {"find", "api", "stats"} => JBag(journal') = JBag(journal) /\ appended' = appended]_vars
 C18_AppendOnce == [][kind' = "append" => \E e \in Ent : appended' = Plus(appended, e) /\ AppendOnce(journal, journal', e)]_vars
 C18_FindOK     == kind = "find" => FindOK(res, appended, q)
 C18_ApiFindOK  == kind = "api"  => FindOK(res, appended, q)
